@@ -126,6 +126,40 @@ def gen_selfmod(rng):
     return 'k%d ' % k + case_line((pc, a, b, oreg, sorted(cells.items()), cons, files))
 
 
+def gen_io_sequence(rng):
+    """two READ system calls in one short run, the stream word rewritten in between: same stream twice (the file
+    position must persist) or two stream numbers that name the same file (index (s >> 8) & 7 is shared)"""
+    base = rng.choice([8, 12, 100, 4000])
+    spw = rng.choice([40, 50, 200, 3000])           # mem[1] = sp ; slots sp+1 (result), sp+2 (stream)
+    if abs(spw - base // 4) < 8:
+        return None
+    idx = rng.randrange(1, 8)
+    s1 = idx << 8 | rng.randrange(0, 256)
+    s2 = rng.choice([s1, (idx + 8) << 8, (idx + 8 * rng.randrange(1, 9)) << 8 | rng.randrange(256), idx << 8])
+    def enc_(opc, v):
+        nibs = []
+        x = v
+        while True:
+            nibs.append(x & 15)
+            x >>= 4
+            if not x:
+                break
+        return [0xE0 | n for n in reversed(nibs[1:])] + [opc << 4 | nibs[0]]
+    code = [0xD3] + enc_(3, s2) + enc_(2, spw + 2) + enc_(3, 2) + [0xD3]
+    k = len(code) - sum(1 for b in code if False)
+    steps = len(code)
+    pc = base
+    cells = {}
+    for i, b in enumerate(code):
+        w = (pc + i) >> 2
+        cells[w] = cells.get(w, 0) | (b << (8 * ((pc + i) & 3)))
+    cells[1] = spw
+    cells[spw + 2] = s1
+    data = [rng.randrange(1, 255) for _ in range(rng.choice([0, 1, 2, 3]))]
+    files = [(idx, data)]
+    return 'k%d ' % steps + case_line((pc, 2, rng.randrange(100), 0, sorted(cells.items()), [rng.randrange(256)], files))
+
+
 def case_line(c):
     pc, a, b, o, cells, cons, files = c
     t = [pc, a, b, o, len(cells)]
@@ -139,10 +173,16 @@ def case_line(c):
     return ' '.join(str(x) for x in t)
 
 
+INTROSPECT = [True]
+
+
 def strip_read(s):
     """the harness cannot name a read event's source; compare reads through W/cons/file positions"""
     import re
-    return re.sub(r'\| read \d+ (console|file\d) \|', '| tau |', s)
+    s = re.sub(r'\| read \d+ (console|file\d) \|', '| tau |', s)
+    if not INTROSPECT[0]:
+        s = re.sub(r' f\d=\d+', '', s)
+    return s
 
 
 def main():
@@ -160,9 +200,17 @@ def main():
         ck.finish()
     har, log = vlib.cxx_build('sim_harness', [os.path.join(vlib.ROOT, 'harness', 'sim_harness.cpp'), os.path.join(vlib.REPO, 'hex.cpp')],
                               '-O1 -g -D' + vlib.GUARD)
+    introspect = True
+    if har is None:
+        # HexSimIO's private members may have been refactored: fall back to a harness that does not look at stream-file
+        # positions (reads are still judged through the value stored and through later reads in k-step sequences)
+        har, log = vlib.cxx_build('sim_harness_noio', [os.path.join(vlib.ROOT, 'harness', 'sim_harness.cpp'), os.path.join(vlib.REPO, 'hex.cpp')],
+                                  '-O1 -g -DNO_IO_INTROSPECTION -D' + vlib.GUARD)
+        introspect = False
     if har is None:
         ck.broken.append('sim_harness does not build against the working tree: ' + log[-600:])
         ck.finish()
+    INTROSPECT[0] = introspect
     d = vlib.scratch()
     rng = ck.rng
     per_byte = 60 if not ck.thorough() else 1500
@@ -184,6 +232,10 @@ def main():
         nself = 1500 if not ck.thorough() else 60000
         for _ in range(nself):
             c = gen_selfmod(rng)
+            if c:
+                cases.append(c)
+        for _ in range(nself // 3):
+            c = gen_io_sequence(rng)
             if c:
                 cases.append(c)
     open(os.path.join(d, 'cases.txt'), 'w').write('\n'.join(cases) + '\n')
